@@ -34,6 +34,14 @@ textual ``SELECT <subset>`` through ``from_statement`` and (third mapping varian
 inheritance, where every base-class SELECT returns subclass instances without the sub-table
 columns.
 
+Two more input classes: ``commit()`` of a session transaction that emitted no SQL while the
+session holds unexpired objects (a detached object re-attached with ``add()``; objects kept
+loaded by an ``expire_on_commit=False`` commit, flag switched back on) - it expires like any
+other commit; and a *failed* refresh load (M-spy raises "database is locked" on the SELECT of
+the first read of an expired attribute, or the read happens while detached) followed by a
+retry, which must load the database value.  Every explicit read of an EXPIRED attribute is
+compared with the database directly.
+
 Guards: ``refresh`` expires first and autoflushes second (so pending changes on the
 refreshed attributes are discarded, others flushed) - modelled as "EXPIRED, then scan";
 ``populate_existing`` with autoflush off overwrites pending values (documented) - their
@@ -58,7 +66,8 @@ META = {
     "exhaustive": {"quick": False, "thorough": False},
     "require": ["ext_writes", "reloads_after_ext_write", "expired_reload_checks", "value_kept_checks",
                 "pending_kept_checks", "pending_reached_db_checks", "populate_existing_ops", "refresh_ops",
-                "commit_expire_ops", "partial_expire_ops", "populate_existing_subset_rows"],
+                "commit_expire_ops", "partial_expire_ops", "populate_existing_subset_rows", "idle_commits", "failed_loads_injected",
+                "expired_read_value_checks"],
     "assumptions": ["sqlite3 raw handles report in_transaction truthfully"],
 }
 
@@ -107,6 +116,15 @@ class Hist:
                       f"reading A({pk}).{a} (shadow {self.shadow[(pk, a)][0]}) raised {type(e).__name__}: {str(e)[:120]}",
                       pk=pk, attr=a)
             return None
+
+    def check_expired_read(self, pk, a, v, what):
+        """The value an explicit read of an EXPIRED attribute returns is the database value now."""
+        t = self.truth(pk, a)
+        self.ctx.count("expired_read_value_checks")
+        if v != t:
+            self.viol(f"{what}-of-expired-attribute-returns-other-than-database-value",
+                      f"A({pk}).{a} was expired; {what} returned {v!r}, the database says {t!r}", pk=pk, attr=a,
+                      memory=v, database=t)
 
     def expire_shadow(self, pks=None, attrs=ATTRS, drop_pending=True):
         for pk in (pks if pks is not None else list(self.objs)):
@@ -212,7 +230,97 @@ def build_ops(h):
             return ("read", "raised")
         if sh is not EXP and v != sh[1]:
             h.viol("read-returns-other-than-kept-value", f"A({pk}).{a} should still be {sh[1]!r}, read {v!r}", pk=pk, attr=a)
+        elif sh is EXP:
+            h.check_expired_read(pk, a, v, "read")
         return ("read", sh is EXP)
+
+    def idle_commit():
+        """Input class: commit of a session transaction that never touched the database while
+        the session holds unexpired persistent objects."""
+        kind = rng.choice(["reattach", "toggle"])
+        loaded = [pk for pk in h.objs if any(a in h.objs[pk].__dict__ for a in ATTRS)
+                  and not any((pk, a) in h.pend for a in ATTRS)]
+        if kind == "reattach":
+            if not loaded:
+                return None
+            pk = rng.choice(loaded)
+            o = h.objs[pk]
+            s.expunge(o)                 # keeps its loaded values
+            keep = {a: h.shadow[(pk, a)] for a in ATTRS}
+            commit()                     # ends the transaction that loaded it; o is not part of it
+            for a in ATTRS:
+                h.shadow[(pk, a)] = keep[a]
+            h.trace.append(("…expunge+commit",))
+            s.add(o)                     # new transaction, no SQL
+        else:
+            if not loaded:
+                return None
+            was = s.expire_on_commit
+            s.expire_on_commit = False
+            commit()                     # everything stays loaded
+            s.expire_on_commit = True    # (stays on for the rest of the history)
+            h.flags["expire_on_commit"] = True
+        h.scan()
+        if h.violated:
+            return ("idle_commit", kind)
+        ext_write()
+        mark = rig.spy.mark()
+        commit()                         # the transaction emitted no SQL
+        if not rig.nstatements(mark):
+            ctx.count("idle_commits")
+        return ("idle_commit", kind)
+
+    def read_after_failed_load():
+        """Input class: the refresh SELECT of the first read of an expired attribute raises;
+        the caller reads again without rollback / expire / refresh in between."""
+        import sqlalchemy.exc as sa_exc
+        import sqlalchemy.orm.exc as orm_exc
+
+        pk = some_obj()
+        if pk is None:
+            return None
+        o = h.objs[pk]
+        a = rng.choice(ATTRS)
+        if h.pend or s.dirty or s.new or s.deleted:
+            return None          # (nothing to autoflush: the only statement of the read is the refresh SELECT)
+        s.expire(o)
+        h.expire_shadow([pk])
+        kind = rng.choice(["dbapi_error", "detached"])
+        if kind == "dbapi_error":
+            fired = []
+
+            def fault(ev):
+                if not fired and ev.kind == "execute" and str(ev.sql).lstrip().upper().startswith("SELECT"):
+                    fired.append(1)
+                    return sqlite3.OperationalError("database is locked")
+                return None
+
+            rig.spy.fault = fault
+            try:
+                getattr(o, a)
+                raised = None
+            except sa_exc.OperationalError as e:
+                raised = e
+            finally:
+                rig.spy.fault = None
+            if raised is None:
+                if fired:
+                    h.viol("read-swallowed-load-error", f"A({pk}).{a}: the refresh SELECT failed but the read returned", pk=pk, attr=a)
+                return ("read_after_failed_load", kind, "no-load")
+        else:
+            s.expunge(o)
+            try:
+                getattr(o, a)
+                h.viol("read-of-expired-detached-attribute-returned", f"A({pk}).{a} expired + detached: read did not raise", pk=pk, attr=a)
+                return ("read_after_failed_load", kind)
+            except orm_exc.DetachedInstanceError:
+                pass
+            s.add(o)
+        ctx.count("failed_loads_injected")
+        v = h.getattr(pk, a)             # the retry
+        if not h.violated:
+            h.check_expired_read(pk, a, v, "retry-after-failed-load")
+        return ("read_after_failed_load", kind)
 
     def set_():
         pk = some_obj()
@@ -345,7 +453,8 @@ def build_ops(h):
         return ("query", kind)
 
     return [(ext_write, 16), (load, 6), (read, 14), (set_, 8), (expire, 5), (expire_attrs, 7), (expire_all, 3),
-            (refresh, 7), (commit, 6), (rollback, 4), (flush, 4), (query, 9)]
+            (refresh, 7), (commit, 6), (rollback, 4), (flush, 4), (query, 9), (idle_commit, 4),
+            (read_after_failed_load, 4)]
 
 
 def one_history(ctx, rig, flags, length):
